@@ -90,8 +90,19 @@ def gen(rng, tier):
             form = case["form"]
             names = [nd["name"] for nd in case["spec"]["nodes"]]
             muts = []
+            if form == "seq" and rng.random() < 0.5:
+                # strict mode with a customer whose window never closes: an arc from another customer to it passes the strict rule, is
+                # stored by the sequence class itself (not by the base class) and must be seen by later queries
+                case["strict"] = True
+                if len(case["spec"]["nodes"]) >= 3:
+                    case["spec"]["nodes"][-1]["hi"] = "inf"
+                    muts.append(["addarc", names[1], names[-1], "1", "2"])
             for _ in range(rng.randint(1, 2)):
-                kind = rng.choice(["addarc", "addarc", "addnode"] + (["tp"] if form == "arc" else []) + (["setV", "setL"] if form == "seq" else []))
+                kind = rng.choice(["addarc", "addarc", "addnode", "setdepot"] + (["tp"] if form == "arc" else []) + (["setV", "setL"] if form == "seq" else []))
+                if kind == "setdepot":
+                    # another node becomes the depot: positions, arc keys (and, for sequences, which tuples are fixed) change, sizes do not
+                    muts.append(["setdepot", rng.choice(names[1:]) if len(names) > 1 else names[0]])
+                    continue
                 if kind == "tp":
                     muts.append(["tp", VU.gen_grid(rng, case["spec"], tier)])
                 elif kind == "setV":
@@ -150,7 +161,7 @@ def shrink(case):
 from .props_common import tuple_box, query, full_state  # noqa: E402
 
 
-MUTATORS = ("tp", "setV", "setL", "addarc", "addnode")
+MUTATORS = ("tp", "setV", "setL", "addarc", "addnode", "setdepot")
 FLAG_MODEL_HAS_MUTATORS = True
 EMPTY_GRID_STREAM = True
 
@@ -166,6 +177,8 @@ def apply_mutator(o, op):
         o.add_arc(op[1], op[2], VU.val(op[3]), VU.val(op[4]))
     elif op[0] == "addnode":
         o.add_node(op[1], VU.val(op[2]), (VU.val(op[3]), VU.val(op[4])))
+    elif op[0] == "setdepot":
+        o.set_depot(op[1])
 
 
 def run_history(case, hist, res=None, check_twice=False):
@@ -350,6 +363,10 @@ def correspond_flags(res, drv, case):
             elif kind == "addnode":
                 ops.append(f"addnode {op[1]} {op[2]} {op[3]} {op[4]}")
                 o.add_node(op[1], VU.val(op[2]), (VU.val(op[3]), VU.val(op[4])))
+                out = ("mut", "done")
+            elif kind == "setdepot":
+                ops.append(f"setdepot {op[1]}")
+                o.set_depot(op[1])
                 out = ("mut", "done")
             else:
                 continue
